@@ -753,3 +753,10 @@ class P(Prop):
 def json_short(o):
     import json
     return json.dumps(o)[:400]
+
+
+# ---- tie to the source by translation (tools/py2lean.py -> lean/TracklibVerif/Gen/ObsTime.lean, regenerated on every run)
+P.tie_modules = ["TracklibVerif.Tie.C03"]
+P.theorems = P.theorems + [
+    ("TracklibVerif.Tie.C03", "TV.Tie.C03.tie_isLeapYear", "the Lean translation of the CURRENT source of ObsTime.isLeapYear equals the model's isLeap on every year >= 0"),
+]
